@@ -29,6 +29,8 @@ mutual
     | .flag b => if b then "b1" else "b0"
     | .opt none => "o-"
     | .opt (some i) => "o" ++ toString i
+    | .dt none => "d-"
+    | .dt (some d) => s!"d{d.year}/{d.month}/{d.day}/{d.hour}/{d.minute}/{d.second}/{d.msec}"
     | .absent => "A"
     | .record vs => "R( " ++ showVals vs ++ " )"
     | .list items => "L( " ++ showVals items ++ " )"
@@ -61,6 +63,12 @@ partial def parseVals : List String → Option (List Val × List String)
         | ['b', '1'] => some (.flag true, rest)
         | ['o', '-'] => some (.opt none, rest)
         | 'o' :: d => (String.ofList d).toNat?.map fun n => (.opt (some n), rest)
+        | ['d', '-'] => some (.dt none, rest)
+        | 'd' :: d =>
+          match ((String.ofList d).splitOn "/").map String.toInt? with
+          | [some y, some mo, some da, some h, some mi, some sc, some ms] =>
+            some (.dt (some ⟨y, mo.toNat, da.toNat, h.toNat, mi.toNat, sc.toNat, ms.toNat⟩), rest)
+          | _ => none
         | _ => none
     match one with
     | some (v, rest') => (parseVals rest').map fun r => (v :: r.1, r.2)
@@ -146,11 +154,24 @@ def genScalar (ty : FTy) (i c : Nat) : Val × Nat :=
   | .optNat b =>
     let cands := [0, 1, 2 ^ b - 1, 10, mix i (c + 2) % 2 ^ b]
     (if present i c then .opt (some (cands[pick i (c + 1) cands.length]!)) else .opt none, c + 3)
+  | .optInt b =>
+    let cands := [0, 1, 2 ^ b - 1, 10, mix i (c + 2) % 2 ^ b]
+    (if present i c then .opt (some (cands[pick i (c + 1) cands.length]!)) else .opt none, c + 3)
+  | .optIntZ b =>
+    let cands := [0, 1, 2 ^ b - 1, 10, mix i (c + 2) % 2 ^ b]
+    (if present i c then .opt (some (cands[pick i (c + 1) cands.length]!)) else .opt none, c + 3)
   | .flag _ => (.flag (present i c), c + 1)
   | .enum names =>
     (if present i c && names.length > 0 then .opt (some (pick i (c + 1) names.length)) else .opt none, c + 2)
   | .enumD names d =>
     (if present i c && names.length > 0 then .nat (pick i (c + 1) names.length) else .nat d, c + 2)
+  | .dateTime =>
+    let r := mix i (c + 2)
+    let cands : List Scalar.Dt := [⟨2000, 1, 1, 0, 0, 0, 0⟩, ⟨9999, 12, 31, 23, 59, 59, 999⟩, ⟨1, 1, 1, 0, 0, 0, 0⟩,
+      ⟨2024, 2, 29, 12, 34, 56, 7⟩, ⟨1970, 1, 1, 0, 0, 0, 1⟩, ⟨2038, 1, 19, 3, 14, 8, 0⟩,
+      ⟨1 + r % 9999, 1 + r / 10000 % 12, 1 + r / 120000 % 28, r / 3360000 % 24, r / 80640000 % 60, r / 4838400000 % 60,
+        if r % 3 == 0 then 0 else r / 290304000000 % 1000⟩]
+    (if present i c then .dt (some (cands.getD (pick i (c + 1) cands.length) ⟨2000, 1, 1, 0, 0, 0, 0⟩)) else .dt none, c + 3)
   | .b64 =>
     let rnd := (List.range (mix i (c + 2) % 24)).map fun k => mix i (c + 3 + k) % 256
     let cands : List (List Nat) := [[0], [255], [77], [77, 97], [77, 97, 110], [251, 255, 190], [0, 0, 0, 0],
